@@ -6,7 +6,7 @@ R3 nullable closest pair / infinite sentinel.
 import ast
 
 from sa import callgraph, typestate
-from sa.astutil import (call_name, calls_in, dotted, norm, walk_no_nested, last_attr,
+from sa.astutil import (anorm, call_name, calls_in, dotted, norm, walk_no_nested, last_attr,
                         names_in, fact_texts, facts_at, enclosing_loops, is_inf, try_fold,
                         guards_of, flatten_and)
 from sa.loader import AnalysisError
@@ -164,7 +164,7 @@ def run(ctx):
                     continue
                 ok, why = True, '%s %s %s' % (lname, '<' if pol else 'not >=', norm(right))
                 break
-            key = 'guard:%s.%s:%s' % (fid[0], fid[1], norm(node)[:60])
+            key = 'guard:%s.%s:%s' % (fid[0], fid[1], anorm(node, fn)[:60])
             ctx.ob('C05.R1', key, ok,
                    '%s in a pair loop of %s.%s must be dominated by "distance below cut-off" on a '
                    'distance of the two loop objects, with matching power (%s)'
